@@ -149,7 +149,7 @@ def provenance(prog: Program, func: FuncInfo, expr: ast.AST, seen: Optional[Set[
             if leaves == {"True"}:
                 guard_leaves: Set[str] = set()
                 for test, polarity in guards_of(func.node, stmt):
-                    if polarity:
+                    if polarity and not isinstance(test, ast.Constant):  # 'while True:' guards nothing
                         one = provenance(prog, func, test, seen | {expr.id}, depth + 1)
                         # mode tests (pure expressions over the arguments) restrict when the flag can be
                         # set at all; they are not where its value comes from
